@@ -96,7 +96,9 @@ Definition copeland (second_order : bool) (v : pvotes) (n : nat) : list (res C) 
   let best := get_n_best zle_bool scores n in
   if second_order && has_tie best then
     let tied := res_members best in
-    let so := fold_left (fun d p => if cmem (fst p) tied then dadd d (fst p) (dget_or scores (snd p) 0) else d) wins [] in
+    (* every tied candidate starts from a zero second-order score, in the order of the score dictionary *)
+    let so0 := flat_map (fun cs : C * Z => if cmem (fst cs) tied then [(fst cs, 0)] else []) scores in
+    let so := fold_left (fun d p => if cmem (fst p) tied then dadd d (fst p) (dget_or scores (snd p) 0) else d) wins so0 in
     let untied := res_untied best in
     untied ++ get_n_best zle_bool so (length best - length untied)
   else best.
